@@ -26,9 +26,10 @@ type Item struct {
 
 // Program is a list of items plus optional extra top-level declarations per language.
 type Program struct {
-	Items  []Item
-	DeclsX []string // extra top-level declarations, XGo side
-	DeclsG []string // extra top-level declarations, Go side
+	LineTrace bool // traced helpers record "tag@file:line" of their caller (C09)
+	Items     []Item
+	DeclsX    []string // extra top-level declarations, XGo side
+	DeclsG    []string // extra top-level declarations, Go side
 }
 
 const prelude = `
@@ -98,7 +99,23 @@ type box struct {
 }
 `
 
-func render(items []Item, decls []string, xgo bool) string {
+func lineTracePrelude() string {
+	p := prelude
+	for _, fn := range []string{"t", "ts", "tb", "tl", "tm"} {
+		p = strings.Replace(p, "func "+fn+"(tag string, v ", "func "+fn+"(tag0 string, v ", 1)
+	}
+	p = strings.ReplaceAll(p, "\ttrace = append(trace, tag)\n", "\ttrace = append(trace, where(tag0))\n")
+	return p + `
+func where(tag string) string {
+	_, file, line, _ := runtime.Caller(2)
+	return fmt.Sprintf("%s@%s:%d", tag, filepath.Base(file), line)
+}
+`
+}
+
+func render(items []Item, decls []string, xgo bool) string { return renderP(items, decls, xgo, false) }
+
+func renderP(items []Item, decls []string, xgo bool, lineTrace bool) string {
 	var b strings.Builder
 	b.WriteString("package main\n\nimport (\n\t\"errors\"\n\t\"fmt\"\n\t\"sort\"\n\t\"strconv\"\n\t\"strings\"\n)\n\nvar _ = errors.New\nvar _ = strconv.Itoa\n")
 	extra := strings.Join(decls, "\n\n")
@@ -111,7 +128,12 @@ func render(items []Item, decls []string, xgo bool) string {
 		}
 	}
 	_ = all
-	b.WriteString(prelude)
+	if lineTrace {
+		b.WriteString("\nimport (\n\t\"path/filepath\"\n\t\"runtime\"\n)\n")
+		b.WriteString(lineTracePrelude())
+	} else {
+		b.WriteString(prelude)
+	}
 	if extra != "" {
 		b.WriteString("\n" + extra + "\n")
 	}
@@ -135,10 +157,10 @@ func render(items []Item, decls []string, xgo bool) string {
 }
 
 // XGo renders the .xgo file.
-func (p *Program) XGo() string { return render(p.Items, p.DeclsX, true) }
+func (p *Program) XGo() string { return renderP(p.Items, p.DeclsX, true, p.LineTrace) }
 
 // Go renders the reference program.
-func (p *Program) Go() string { return render(p.Items, p.DeclsG, false) }
+func (p *Program) Go() string { return renderP(p.Items, p.DeclsG, false, p.LineTrace) }
 
 func indent(s string) string {
 	lines := strings.Split(strings.TrimRight(s, "\n"), "\n")
